@@ -20,6 +20,13 @@ def parseHook : SExp → Option Hook
     pure { id := ← id.nat?, isTask := kind == "task", critical := ← crit.bool?,
            trig := ← parseMoment tm, tw := ← tw.int?, await := ← parseMoment am, aw := ← aw.int?,
            outcomes := ← outs.mapM? SExp.bool? }
+  -- with the call's own `timeout` (ms) and the probe's duration (ms): parsed and dropped — neither has
+  -- any effect in the model, as neither has in the core (the result of a call is collected at its await
+  -- point whenever the call finishes; the timeout is only handed to the plugin)
+  | .list [id, kind, crit, tm, tw, am, aw, outs, timeout, dur] => do
+    let _ ← timeout.nat?
+    let _ ← dur.nat?
+    parseHook (.list [id, kind, crit, tm, tw, am, aw, outs])
   | _ => none
 
 def parseReq : SExp → Option Req
@@ -89,6 +96,7 @@ def parseIEv : SExp → Option IEv
       | .list [.atom n, w, c] => do pure (n, (← w.int?), (← c.nat?))
       | _ => none
     pure (.reqEnd (← parseRes res) st (← rn.nat?) (← parseVars v) ps (← g.bool?))
+  | .list [.atom "Q", n] => do pure (.quiesce (← n.nat?))
   | _ => none
 
 def parseTrace (s : String) : Option ITrace :=
